@@ -18,12 +18,6 @@ theorem partsLeaf_of_kids {w : World} (h : ∀ p, (w.part p).kids = none) : Part
   rw [List.getD_eq_getElem?_getD, List.getElem?_eq_getElem hi] at this
   exact this
 
-theorem gatePred_leaf {w w' : World} (h : PartsLeaf w) (h' : PartsLeaf w') {p : Nat}
-    (hq : (w'.part p).quality = (w.part p).quality) (hv : (w'.part p).value = (w.part p).value)
-    (pr : Pred) : w'.gatePred pr p = w.gatePred pr p := by
-  unfold gatePred partValue
-  simp only [h.kids, h'.kids, hq, hv]
-
 theorem fuel_of_len {w w' : World} (h : w'.devs.length = w.devs.length) : w'.fuel = w.fuel := by
   unfold World.fuel; rw [h]
 
@@ -42,39 +36,48 @@ theorem evOK_of {w w' : World} (h : EvOK w) (hk : ∀ d, (w'.dev d).kind = (w.de
   · exact h n h1 d hd
   · exact h1 d hd
 
+theorem attrs_of_parts {w w' : World} (h : w'.parts = w.parts) (p : Nat) : attrs w' p = attrs w p := by
+  unfold attrs partValue leafCount part; rw [h]
+
+theorem StkOK.frame {w w' : World} (h : StkOK w) (hp : w'.parts = w.parts)
+    (hk : ∀ d, (w'.dev d).kind = (w.dev d).kind) : StkOK w' :=
+  h.map hk (fun h2 q g hg => by rw [part_congr hp] at hg; exact h2 q g hg)
+
 /-! ### the transfer lemma -/
 
-theorem G.transfer {E N E' N' : List Nat} {w w' : World} (h : G E N w)
-    (hsw : sw w' = sw w) (hpl : PartsLeaf w')
+theorem G.transfer {E N A E' N' A' : List Nat} {w w' : World} (h : G E N A w)
+    (hsw : sw w' = sw w) (hpl : NoBatch w → PartsLeaf w')
     (hinv : C01.Inv w'.env) (hnow : w'.now = w.now) (hev : EvOK w') (hvalid : HeldValid w')
-    (hparts : ∀ p, p < w.parts.length →
-      (w'.part p).quality = (w.part p).quality ∧ (w'.part p).value = (w.part p).value)
-    (hacc : ∀ y, y ∉ N' → accB (w'.dev y) = true → y ∉ N ∧ accB (w.dev y) = true)
+    (hkv : KidsValid w') (hstk : StkOK w') (hwr : WR w') (hA : ∀ x ∈ A', (w.dev x).kind = .batcher)
+    (hacc : ∀ n y, y ∉ N' → (A'.contains y || accB n (w'.dev y)) = true →
+      y ∉ N ∧ (A.contains y || accB n (w.dev y)) = true)
     (hhold : ∀ d p, holdsD (w'.dev d) = some p → d ∉ E' →
-      Att w' d ∨ (holdsD (w.dev d) = some p ∧ d ∉ E ∧ (Att w d → Att w' d) ∧
+      Att w' d ∨ (holdsD (w.dev d) = some p ∧ d ∉ E ∧ attrs w' p = attrs w p ∧
+        (Att w d → Att w' d) ∧
         ((w.dev d).waitingDS = true → (w'.dev d).waitingDS = true ∨ Att w' d))) :
-    G E' N' w' := by
-  refine ⟨h.s1.of_sw hsw hpl, hinv, by rw [hnow]; exact h.now0, hev, hvalid, ?_⟩
+    G E' N' A' w' := by
+  refine ⟨h.sc.of_sw hsw, fun hb => hpl ((noBatch_of_sw hsw).mp hb), hinv,
+    by rw [hnow]; exact h.now0, hev, hvalid, hkv, hstk, hwr,
+    fun x hx => by rw [sw_kind hsw]; exact hA x hx, ?_⟩
   intro d p hd hdE
-  rcases hhold d p hd hdE with ha | ⟨hd0, hdE0, hatt, hfl⟩
+  rcases hhold d p hd hdE with ha | ⟨hd0, hdE0, hat, hatt, hfl⟩
   · exact Or.inl ha
   · rcases h.wake d p hd0 hdE0 with ha | hb
     · exact Or.inl (hatt ha)
     · rcases hfl hb.1 with hf | ha
       · refine Or.inr ⟨hf, fun y hy => ?_⟩
         rw [sw_down hsw] at hy
-        have hp : p < w.parts.length := h.valid.dev d p (holdsD_mem_heldL hd0)
-        cases hh : wouldAcceptN w'.fuel w' N' y p with
+        cases hh : wouldAcceptN w'.fuel w' N' A' y p with
         | false => rfl
         | true =>
           rw [fuel_of_len (sw_len hsw)] at hh
-          have := wouldAcceptN_mono (w := w) (w' := w') (N := N) (N' := N') (p := p)
-            (fun z => ⟨sw_kind hsw z, sw_pred hsw z, sw_down hsw z⟩)
-            (gatePred_leaf h.s1.2 hpl (hparts p hp).1 (hparts p hp).2)
+          have := wouldAcceptN_mono (w := w) (w' := w') (N := N) (N' := N') (A := A) (A' := A')
+            (p := p) (TopoEq.of_sw hsw)
+            (gatePred_attrs hat) (stack_attrs hat)
             (fun z hz hc => by
-              rw [canAcceptBasic_eq hpl] at hc
-              rw [canAcceptBasic_eq h.s1.2]
-              exact hacc z hz hc) _ _ hh
+              rw [accM_eq, leafCount_attrs hat] at hc
+              rw [accM_eq]
+              exact hacc _ z hz hc) _ _ hh
           rw [hb.2 y hy] at this; cases this
       · exact Or.inl ha
 
@@ -95,26 +98,40 @@ theorem heldValid_setDev {w : World} (h : HeldValid w) (x : Nat) (d' : Dev)
   · exact h d hd p hp
   · subst hd; exact hv p hp
 
-theorem G.setDev {E N E' N' : List Nat} {w : World} (h : G E N w) (x : Nat) (d' : Dev)
+theorem G.setDev {E N A E' N' : List Nat} {w : World} (h : G E N A w) (x : Nat) (d' : Dev)
     (hs : stat1 d' = stat1 (w.dev x)) (hv : ∀ p ∈ heldL d', p < w.parts.length)
     (hE : ∀ y ∈ E, y ∈ E') (hN : ∀ y ∈ N, y ∈ N')
-    (hacc : x ∈ N' ∨ (accB d' = true → accB (w.dev x) = true))
+    (hacc : x ∈ N' ∨ x ∈ A ∨ ∀ n, accB n d' = true → accB n (w.dev x) = true)
     (hhold : x ∈ E' ∨ ∀ p, holdsD d' = some p → holdsD (w.dev x) = some p ∧
-      dueD w.now (w.dev x) ≤ dueD w.now d' ∧ ((w.dev x).waitingDS = true → d'.waitingDS = true)) :
-    G E' N' (w.setDev x d') := by
+      dueD w.now (w.dev x) ≤ dueD w.now d' ∧ ((w.dev x).waitingDS = true → d'.waitingDS = true))
+    (hfl : d'.waitingRes = true → (w.dev x).waitingRes = true ∨
+      ∃ req, d'.resReq = some req ∧ (req, Cb.proc x) ∈ w.rm.waiting := by intro h; exact Or.inl h) :
+    G E' N' A (w.setDev x d') := by
   by_cases hx : x < w.devs.length
   · have hsw := sw_setDev w x d' hs
-    refine h.transfer hsw h.s1.2 h.inv rfl ?_ (heldValid_setDev h.valid x d' hv)
-      (fun p _ => ⟨rfl, rfl⟩) ?_ ?_
+    refine h.transfer hsw h.pl h.inv rfl ?_ (heldValid_setDev h.valid x d' hv) h.kv
+      (h.stk.frame rfl (sw_kind hsw))
+      (h.wr.frame hsw (fun _ he => he) (fun _ he => Or.inl he) (fun y hy => by
+        rw [dev_setDev] at hy ⊢
+        split at hy
+        · next hc =>
+          rw [if_pos hc, ← hc.1]
+          exact hfl hy
+        · next hc => rw [if_neg hc]; exact Or.inl hy)) h.aok ?_ ?_
     · exact evOK_of h.ev (fun d => sw_kind hsw d) (fun n hn => Or.inl hn)
-    · intro y hy ha
+    · intro n y hy ha
       rw [dev_setDev] at ha
       split at ha
       · next hc =>
         obtain ⟨rfl, _⟩ := hc
-        rcases hacc with hacc | hacc
+        rcases hacc with hacc | hacc | hacc
         · exact absurd hacc hy
-        · exact ⟨fun hc => hy (hN _ hc), hacc ha⟩
+        · refine ⟨fun hc => hy (hN _ hc), ?_⟩
+          have : A.contains x = true := by simpa using hacc
+          rw [this]; rfl
+        · refine ⟨fun hc => hy (hN _ hc), ?_⟩
+          rw [Bool.or_eq_true] at ha ⊢
+          exact ha.imp id (hacc n)
       · exact ⟨fun hc => hy (hN _ hc), ha⟩
     · intro d p hd hdE
       refine Or.inr ?_
@@ -125,91 +142,125 @@ theorem G.setDev {E N E' N' : List Nat} {w : World} (h : G E N w) (x : Nat) (d' 
         rcases hhold with hhold | hhold
         · exact absurd hhold hdE
         · obtain ⟨h1, h2, h3⟩ := hhold p hd
-          refine ⟨h1, fun hc => hdE (hE _ hc), ?_, ?_⟩
+          refine ⟨h1, fun hc => hdE (hE _ hc), rfl, ?_, ?_⟩
           · exact att_mono (fun e he => he) (sw_aid hsw x)
               (by rw [dev_setDev_same hx]; exact h2)
           · intro hf; left; rw [dev_setDev_same hx]; exact h3 hf
       · next hc =>
         have hne : (w.setDev x d').dev d = w.dev d := by
           rw [dev_setDev]; rw [if_neg hc]
-        refine ⟨hd, fun hc => hdE (hE _ hc), ?_, ?_⟩
+        refine ⟨hd, fun hc => hdE (hE _ hc), rfl, ?_, ?_⟩
         · exact att_mono (fun e he => he) (by rw [hne]) (by rw [hne]; exact Int.le_refl _)
         · intro hf; left; rw [hne]; exact hf
   · rw [dev_setDev_out_of_range (Nat.le_of_not_lt hx)]
-    exact h.mono hE hN
+    exact h.mono hE hN (fun _ hy => hy)
 
-theorem G.modDev {E N E' N' : List Nat} {w : World} (h : G E N w) (x : Nat) (f : Dev → Dev)
+theorem G.modDev {E N A E' N' : List Nat} {w : World} (h : G E N A w) (x : Nat) (f : Dev → Dev)
     (hs : stat1 (f (w.dev x)) = stat1 (w.dev x)) (hv : ∀ p ∈ heldL (f (w.dev x)), p < w.parts.length)
     (hE : ∀ y ∈ E, y ∈ E') (hN : ∀ y ∈ N, y ∈ N')
-    (hacc : x ∈ N' ∨ (accB (f (w.dev x)) = true → accB (w.dev x) = true))
+    (hacc : x ∈ N' ∨ x ∈ A ∨ ∀ n, accB n (f (w.dev x)) = true → accB n (w.dev x) = true)
     (hhold : x ∈ E' ∨ ∀ p, holdsD (f (w.dev x)) = some p → holdsD (w.dev x) = some p ∧
       dueD w.now (w.dev x) ≤ dueD w.now (f (w.dev x)) ∧
-      ((w.dev x).waitingDS = true → (f (w.dev x)).waitingDS = true)) :
-    G E' N' (w.modDev x f) :=
-  h.setDev x _ hs hv hE hN hacc hhold
+      ((w.dev x).waitingDS = true → (f (w.dev x)).waitingDS = true))
+    (hfl : (f (w.dev x)).waitingRes = true → (w.dev x).waitingRes = true ∨
+      ∃ req, (f (w.dev x)).resReq = some req ∧ (req, Cb.proc x) ∈ w.rm.waiting := by
+        intro h; exact Or.inl h) :
+    G E' N' A (w.modDev x f) :=
+  h.setDev x _ hs hv hE hN hacc hhold hfl
 
 /-- A device update that touches neither the slots nor anything acceptance depends on. -/
-theorem G.setDev_irrel {E N : List Nat} {w : World} (h : G E N w) (x : Nat) (d' : Dev)
+theorem G.setDev_irrel {E N A : List Nat} {w : World} (h : G E N A w) (x : Nat) (d' : Dev)
     (hs : stat1 d' = stat1 (w.dev x)) (hh : heldL d' = heldL (w.dev x))
-    (ha : accB d' = accB (w.dev x)) (ho : holdsD d' = holdsD (w.dev x))
-    (hd : ∀ n, dueD n d' = dueD n (w.dev x)) (hf : d'.waitingDS = (w.dev x).waitingDS) :
-    G E N (w.setDev x d') :=
+    (ha : ∀ n, accB n d' = accB n (w.dev x)) (ho : holdsD d' = holdsD (w.dev x))
+    (hd : ∀ n, dueD n d' = dueD n (w.dev x)) (hf : d'.waitingDS = (w.dev x).waitingDS)
+    (hfl : d'.waitingRes = true → (w.dev x).waitingRes = true ∨
+      ∃ req, d'.resReq = some req ∧ (req, Cb.proc x) ∈ w.rm.waiting := by intro h; exact Or.inl h) :
+    G E N A (w.setDev x d') :=
   h.setDev x d' hs (fun p hp => h.valid.dev x p (by rw [← hh]; exact hp)) (fun _ h => h)
-    (fun _ h => h) (Or.inr (by rw [ha]; exact id))
+    (fun _ h => h) (Or.inr (Or.inr (fun n => by rw [ha]; exact id)))
     (Or.inr (fun p hp => ⟨by rw [← ho]; exact hp, by rw [hd]; exact Int.le_refl _,
-      by rw [hf]; exact id⟩))
+      by rw [hf]; exact id⟩)) hfl
 
 /-! ### steps that only touch the environment / the logs / other tables -/
 
-theorem G.env {E N : List Nat} {w w' : World} (h : G E N w) (hd : w'.devs = w.devs)
+theorem G.envWR {E N A : List Nat} {w w' : World} (h : G E N A w) (hd : w'.devs = w.devs)
     (hp : w'.parts = w.parts) (hsw : sw w' = sw w) (hinv : C01.Inv w'.env)
     (hnow : w'.now = w.now) (hevs : ∀ e ∈ w.env.events, e ∈ w'.env.events)
     (ha : ∀ n ∈ C02V.acts w'.env, n ∈ C02V.acts w.env ∨
-      ∀ d, Action.ofNat n = .fail d → (w.dev d).kind = .processor) :
-    G E N w' := by
+      ∀ d, Action.ofNat n = .fail d → (w.dev d).kind = .processor)
+    (hwr : WR w') :
+    G E N A w' := by
   have hdev : ∀ y, w'.dev y = w.dev y := fun y => dev_congr hd y
-  refine h.transfer hsw (by unfold PartsLeaf; rw [hp]; exact h.s1.2) hinv hnow
+  refine h.transfer hsw (fun hb => by unfold PartsLeaf; rw [hp]; exact h.pl hb) hinv hnow
     (evOK_of h.ev (fun d => by rw [hdev]) ha)
     (by unfold HeldValid; rw [hd, hp]; exact h.valid)
-    (fun p _ => by rw [part_congr hp]; exact ⟨rfl, rfl⟩)
-    (fun y hy hacc => ⟨hy, by rw [← hdev]; exact hacc⟩) ?_
+    (by unfold KidsValid; rw [hp]; exact h.kv)
+    (h.stk.frame hp (fun d => by rw [hdev]))
+    hwr h.aok
+    (fun n y hy hacc => ⟨hy, by rw [← hdev]; exact hacc⟩) ?_
   intro d p hdp hdE
-  refine Or.inr ⟨by rw [← hdev]; exact hdp, hdE, ?_, ?_⟩
+  refine Or.inr ⟨by rw [← hdev]; exact hdp, hdE, attrs_of_parts hp p, ?_, ?_⟩
   · exact att_mono hevs (by rw [hdev]) (by rw [hdev, hnow]; exact Int.le_refl _)
   · intro hf; left; rw [hdev]; exact hf
 
+theorem G.env {E N A : List Nat} {w w' : World} (h : G E N A w) (hd : w'.devs = w.devs)
+    (hp : w'.parts = w.parts) (hsw : sw w' = sw w) (hinv : C01.Inv w'.env)
+    (hnow : w'.now = w.now) (hevs : ∀ e ∈ w.env.events, e ∈ w'.env.events)
+    (ha : ∀ n ∈ C02V.acts w'.env, n ∈ C02V.acts w.env ∨
+      ∀ d, Action.ofNat n = .fail d → (w.dev d).kind = .processor)
+    (hold : ∀ e ∈ w.rm.waiting, e ∈ w'.rm.waiting := by exact fun _ he => he)
+    (hnew : ∀ e ∈ w'.rm.waiting, e ∈ w.rm.waiting ∨ ∃ x, e.2 = Cb.proc x := by
+      exact fun _ he => Or.inl he) :
+    G E N A w' :=
+  h.envWR hd hp hsw hinv hnow hevs ha
+    (h.wr.frame hsw hold hnew (fun y hy => by rw [dev_congr hd] at hy; exact Or.inl hy))
+
 theorem sw_of_fields {w w' : World} (hd : w'.devs = w.devs) (hs : w'.scripts = w.scripts)
     (ht : w'.targets.map (fun t => ({ dev := t.dev } : Target)) =
-      w.targets.map (fun t => ({ dev := t.dev } : Target))) : sw w' = sw w := by
-  unfold sw; rw [hd, hs, ht]
+      w.targets.map (fun t => ({ dev := t.dev } : Target)))
+    (hg : w'.groups = w.groups := by rfl) : sw w' = sw w := by
+  unfold sw; rw [hd, hs, ht, hg]
 
-theorem G.of_eq {E N : List Nat} {w w' : World} (h : G E N w) (hd : w'.devs = w.devs)
+theorem G.of_eq {E N A : List Nat} {w w' : World} (h : G E N A w) (hd : w'.devs = w.devs)
     (hp : w'.parts = w.parts) (he : w'.env = w.env) (hs : w'.scripts = w.scripts)
     (ht : w'.targets.map (fun t => ({ dev := t.dev } : Target)) =
-      w.targets.map (fun t => ({ dev := t.dev } : Target))) : G E N w' :=
-  h.env hd hp (sw_of_fields hd hs ht) (by rw [he]; exact h.inv) (by unfold World.now; rw [he])
-    (by rw [he]; exact fun _ h => h) (by rw [he]; exact fun _ h => Or.inl h)
+      w.targets.map (fun t => ({ dev := t.dev } : Target)))
+    (hold : ∀ e ∈ w.rm.waiting, e ∈ w'.rm.waiting := by exact fun _ he => he)
+    (hnew : ∀ e ∈ w'.rm.waiting, e ∈ w.rm.waiting ∨ ∃ x, e.2 = Cb.proc x := by
+      exact fun _ he => Or.inl he)
+    (hg : w'.groups = w.groups := by rfl) : G E N A w' :=
+  h.env hd hp (sw_of_fields hd hs ht hg) (by rw [he]; exact h.inv) (by unfold World.now; rw [he])
+    (by rw [he]; exact fun _ h => h) (by rw [he]; exact fun _ h => Or.inl h) hold hnew
 
-theorem G.setErr {E N : List Nat} {w : World} (h : G E N w) (m : String) : G E N (w.setErr m) :=
-  h.of_eq (setErr_devs w m) (setErr_parts w m) (setErr_env w m) (setErr_scripts w m)
-    (by rw [setErr_targets])
+/-- only the resource manager changes -/
+theorem G.withRmWR {E N A : List Nat} {w : World} (h : G E N A w) (rm : RM)
+    (hwr : WR { w with rm := rm }) : G E N A { w with rm := rm } :=
+  h.envWR rfl rfl rfl h.inv rfl (fun _ he => he) (fun _ hn => Or.inl hn) hwr
 
-theorem G.addRec {E N : List Nat} {w : World} (h : G E N w) (r : Rec) : G E N (w.addRec r) :=
+theorem setErr_groups (w : World) (m : String) : (w.setErr m).groups = w.groups := by
+  unfold World.setErr; split <;> rfl
+
+theorem G.setErr {E N A : List Nat} {w : World} (h : G E N A w) (m : String) : G E N A (w.setErr m) :=
+  h.of_eq (setErr_devs w m) (setErr_parts w m) (C03.setErr_env w m) (setErr_scripts w m)
+    (by rw [setErr_targets]) (by rw [setErr_rm]; exact fun _ he => he)
+    (by rw [setErr_rm]; exact fun _ he => Or.inl he) (setErr_groups w m)
+
+theorem G.addRec {E N A : List Nat} {w : World} (h : G E N A w) (r : Rec) : G E N A (w.addRec r) :=
   h.of_eq rfl rfl rfl rfl rfl
 
-theorem G.addRes {E N : List Nat} {w : World} (h : G E N w) (r : Res) : G E N (w.addRes r) :=
+theorem G.addRes {E N A : List Nat} {w : World} (h : G E N A w) (r : Res) : G E N A (w.addRes r) :=
   h.of_eq rfl rfl rfl rfl rfl
 
-theorem G.foldl {α} {E N : List Nat} (g : World → α → World)
-    (hg : ∀ w a, G E N w → G E N (g w a)) (l : List α) {w : World} (h : G E N w) :
-    G E N (l.foldl g w) := by
+theorem G.foldl {α} {E N A : List Nat} (g : World → α → World)
+    (hg : ∀ w a, G E N A w → G E N A (g w a)) (l : List α) {w : World} (h : G E N A w) :
+    G E N A (l.foldl g w) := by
   induction l generalizing w with
   | nil => exact h
   | cons a l ih => exact ih (hg w a h)
 
-theorem G.schedLib {E N : List Nat} {w : World} (h : G E N w) (t asset : Int) (a : Action)
+theorem G.schedLib {E N A : List Nat} {w : World} (h : G E N A w) (t asset : Int) (a : Action)
     (prio : Int) (ha : ∀ d, a = .fail d → (w.dev d).kind = .processor) :
-    G E N (w.schedLib t asset a prio) := by
+    G E N A (w.schedLib t asset a prio) := by
   by_cases hle : w.now ≤ t
   · rw [schedLib_of_le w t asset a prio hle]
     have hs : w.env.schedule t asset a.toNat prio (weightOf w.seed w.wmod t asset a.toNat prio)
